@@ -6,11 +6,13 @@
    output does not depend on member order at any depth; the output parses back to the same
    value (so it "denotes the same JSON value"), is a fixed point of Transform, and two values
    with the same canonical bytes are the same value.  The last three are stated for trees whose
-   number tokens are canonical ([wfnum]); that ES6 number layout maps every literal of the
-   exact class to such a token is checked by correspondence (numbers: strconv oracle), not
-   proved: C05_number_tokens_partial states what is missing. *)
-From Coq Require Import NArith String Ascii List Bool Sorting.Sorted Sorting.Permutation.
-From Sidetree Require Import Json.Json Json.Utf Json.Es6 Json.Jcs Json.Parse Json.JcsProps Json.JcsRoundTrip.
+   number tokens are canonical ([wfnum]); the ES6 number layout emits only such tokens
+   (C05_number_tokens_canonical), so Transform is idempotent on its whole domain
+   (C05_transform_idempotent).  Outside the model: float64 -> shortest decimal digits for
+   literals beyond the exact class (strconv; oracle in the correspondence), and invariance of
+   the parser under whitespace / escape / number spelling (correspondence). *)
+From Coq Require Import NArith ZArith String Ascii List Bool Sorting.Sorted Sorting.Permutation.
+From Sidetree Require Import Json.Json Json.Utf Json.Es6 Json.Jcs Json.Parse Json.JcsProps Json.JcsRoundTrip Json.Es6Props Json.TransformIdem.
 Import ListNotations.
 Open Scope string_scope.
 
@@ -62,15 +64,21 @@ Theorem C05_string_escaping_roundtrip s rest :
 Proof. exact (quote_parse s rest). Qed.
 Print Assumptions C05_string_escaping_roundtrip.
 
-(* PARTIAL.  Full statement wanted: forall t t', es6_normalise t = Some t' -> canon_tok t' = true
-   (every token the number layout emits is canonical, hence Transform is idempotent on every
-   input of the model's domain).  Proved here only on the vectors below; the general statement
-   rests on the correspondence stream (double stream against strconv + MarshalCanonical). *)
-Example C05_number_tokens_partial :
-  forallb (fun t => match es6_normalise t with Some t' => canon_tok t' | None => false end)
-    ["1E21"; "123456789012345000000"; "0.000001"; "0.0000001"; "-0"; "1.50"; "100"; "12.5e-1"; "-123456.789e3";
-     "1e-7"; "123e20"; "5e-300"; "1.7e307"; "0.1"; "-1"; "10"; "999999999999999"; "1e21"; "1e20"] = true.
-Proof. vm_compute. reflexivity. Qed.
+(* every token the ES6 number layout emits is canonical (a valid literal made of number
+   characters that the layout maps to itself): parse_number inverts es6_layout *)
+Theorem C05_number_tokens_canonical t t' : es6_normalise t = Some t' -> canon_tok t' = true.
+Proof. exact (es6_normalise_canonical t t'). Qed.
+Print Assumptions C05_number_tokens_canonical.
+
+Theorem C05_layout_parses_back neg sig n :
+  sig_ok sig -> (-1000 <= n <= 1000)%Z -> parse_number (es6_layout neg sig n) = Some (neg, sig, n).
+Proof. exact (layout_parse neg sig n). Qed.
+Print Assumptions C05_layout_parses_back.
+
+(* Transform is idempotent on every input it accepts (model domain: numbers of the exact class) *)
+Theorem C05_transform_idempotent s out : transform s = TOk out -> transform out = TOk out.
+Proof. exact (transform_idempotent s out). Qed.
+Print Assumptions C05_transform_idempotent.
 
 (* non-vacuity: a tree with canonical numbers whose canonical form is not its input order *)
 Example C05_example :
